@@ -69,11 +69,11 @@ def replay(w, ctx):
 
 def floors(m, tier):
     out = []
-    need = 200 if tier == 'quick' else 5000
+    need = 200 if tier == 'quick' else 2500
     if len(m['distinct']) < need:
         out.append('only %d conflicting criteria sequences (< %d)' % (len(m['distinct']), need))
     if m['counters'].get('c04_trace_judged', 0) < need:
         out.append('trace monitor judged only %d runs' % m['counters'].get('c04_trace_judged', 0))
-    if m['counters'].get('probe_points', 0) < (300 if tier == 'quick' else 10000):
+    if m['counters'].get('probe_points', 0) < (300 if tier == 'quick' else 4000):
         out.append('pin probe saw only %d points' % m['counters'].get('probe_points', 0))
     return out
